@@ -85,8 +85,12 @@ def run_writer(writer, target, path, tag, natural_fail=False):
             aw = atomic_write("member_%s.txt" % tag, in_zip=path, mode="wt")
         else:
             aw = atomic_write(path, mode="wt")
+        chunks = ATOMIC_CHUNKS[tag]
+        if target == "zipmember" and tag == "new":
+            # larger than any userspace buffer, so that the member data really reaches the archive before close()
+            chunks = [chunks[0], "A" * 20000 + "\n", chunks[2]]
         with aw as f:
-            for ch in ATOMIC_CHUNKS[tag]:
+            for ch in chunks:
                 f.write(ch)
         return
     obj = OBJS[tag][writer]
@@ -439,7 +443,13 @@ def serve():
             os.makedirs(wd)
             job["dest"] = dest_name(job["writer"], job["target"])
             if job.get("present"):
-                run_writer(job["writer"], job["target"] if job["target"] != "phylip" else "phylip", os.path.join(wd, job["dest"]), "old")
+                dp = os.path.join(wd, job["dest"])
+                if job["target"] == "zip":
+                    # the writers cannot be trusted to produce *.zip (see findings): plain archive
+                    with zipfile.ZipFile(dp, "w") as z:
+                        z.writestr("old_member.txt", "previous content\n")
+                else:
+                    run_writer(job["writer"], job["target"], dp, "old")
             before = observe(wd, job["dest"])
         r, w = os.pipe()
         pid = os.fork()
